@@ -60,10 +60,11 @@ Record state := mkstate {
   s_call_depth : nat;
   s_call_params : list (list dloc);
   s_hints : list (string * N);                    (* Id-node hint cache, keyed by node position+text *)
-  s_cb : nat * option (nat * string) }.           (* harness callback `cb`: invocations so far; (n, kind) = throw `kind` on the n-th *)
+  s_cb : nat * option (nat * string);             (* harness callback `cb`: invocations so far; (n, kind) = throw `kind` on the n-th *)
+  s_evals : list (string * ast) * nat }.          (* texts eval() may be given, pre-parsed by the implementation's parser; eval() calls so far *)
 
 Definition init_state : state :=
-  mkstate [] [] [[[]]] [] [] "" 0 [[]] [] (0, None).
+  mkstate [] [] [[[]]] [] [] "" 0 [[]] [] (0, None) ([], 0).
 
 (* ---------------------------------------------------------------- outcomes *)
 Inductive trace_entry := TE (k : kind) (l : srcloc).
@@ -97,16 +98,26 @@ Fixpoint replace_nth {A} (n : nat) (l : list A) (x : A) : list A :=
   | h :: t, S k => h :: replace_nth k t x
   end.
 
-Definition set_objs (s : state) v := mkstate v (s_data s) (s_stacks s) (s_globals s) (s_funcs s) (s_out s) (s_call_depth s) (s_call_params s) (s_hints s) (s_cb s).
-Definition set_data (s : state) v := mkstate (s_objs s) v (s_stacks s) (s_globals s) (s_funcs s) (s_out s) (s_call_depth s) (s_call_params s) (s_hints s) (s_cb s).
-Definition set_stacks (s : state) v := mkstate (s_objs s) (s_data s) v (s_globals s) (s_funcs s) (s_out s) (s_call_depth s) (s_call_params s) (s_hints s) (s_cb s).
-Definition set_globals (s : state) v := mkstate (s_objs s) (s_data s) (s_stacks s) v (s_funcs s) (s_out s) (s_call_depth s) (s_call_params s) (s_hints s) (s_cb s).
-Definition set_funcs (s : state) v := mkstate (s_objs s) (s_data s) (s_stacks s) (s_globals s) v (s_out s) (s_call_depth s) (s_call_params s) (s_hints s) (s_cb s).
-Definition set_out (s : state) v := mkstate (s_objs s) (s_data s) (s_stacks s) (s_globals s) (s_funcs s) v (s_call_depth s) (s_call_params s) (s_hints s) (s_cb s).
-Definition set_call_depth (s : state) v := mkstate (s_objs s) (s_data s) (s_stacks s) (s_globals s) (s_funcs s) (s_out s) v (s_call_params s) (s_hints s) (s_cb s).
-Definition set_call_params (s : state) v := mkstate (s_objs s) (s_data s) (s_stacks s) (s_globals s) (s_funcs s) (s_out s) (s_call_depth s) v (s_hints s) (s_cb s).
-Definition set_hints (s : state) v := mkstate (s_objs s) (s_data s) (s_stacks s) (s_globals s) (s_funcs s) (s_out s) (s_call_depth s) (s_call_params s) v (s_cb s).
-Definition set_cb (s : state) v := mkstate (s_objs s) (s_data s) (s_stacks s) (s_globals s) (s_funcs s) (s_out s) (s_call_depth s) (s_call_params s) (s_hints s) v.
+Definition set_objs (s : state) v := mkstate v (s_data s) (s_stacks s) (s_globals s) (s_funcs s) (s_out s) (s_call_depth s) (s_call_params s) (s_hints s) (s_cb s) (s_evals s).
+Definition set_data (s : state) v := mkstate (s_objs s) v (s_stacks s) (s_globals s) (s_funcs s) (s_out s) (s_call_depth s) (s_call_params s) (s_hints s) (s_cb s) (s_evals s).
+Definition set_stacks (s : state) v := mkstate (s_objs s) (s_data s) v (s_globals s) (s_funcs s) (s_out s) (s_call_depth s) (s_call_params s) (s_hints s) (s_cb s) (s_evals s).
+Definition set_globals (s : state) v := mkstate (s_objs s) (s_data s) (s_stacks s) v (s_funcs s) (s_out s) (s_call_depth s) (s_call_params s) (s_hints s) (s_cb s) (s_evals s).
+Definition set_funcs (s : state) v := mkstate (s_objs s) (s_data s) (s_stacks s) (s_globals s) v (s_out s) (s_call_depth s) (s_call_params s) (s_hints s) (s_cb s) (s_evals s).
+Definition set_out (s : state) v := mkstate (s_objs s) (s_data s) (s_stacks s) (s_globals s) (s_funcs s) v (s_call_depth s) (s_call_params s) (s_hints s) (s_cb s) (s_evals s).
+Definition set_call_depth (s : state) v := mkstate (s_objs s) (s_data s) (s_stacks s) (s_globals s) (s_funcs s) (s_out s) v (s_call_params s) (s_hints s) (s_cb s) (s_evals s).
+Definition set_call_params (s : state) v := mkstate (s_objs s) (s_data s) (s_stacks s) (s_globals s) (s_funcs s) (s_out s) (s_call_depth s) v (s_hints s) (s_cb s) (s_evals s).
+Definition set_hints (s : state) v := mkstate (s_objs s) (s_data s) (s_stacks s) (s_globals s) (s_funcs s) (s_out s) (s_call_depth s) (s_call_params s) v (s_cb s) (s_evals s).
+Definition set_cb (s : state) v := mkstate (s_objs s) (s_data s) (s_stacks s) (s_globals s) (s_funcs s) (s_out s) (s_call_depth s) (s_call_params s) (s_hints s) v (s_evals s).
+Definition set_evals (s : state) v := mkstate (s_objs s) (s_data s) (s_stacks s) (s_globals s) (s_funcs s) (s_out s) (s_call_depth s) (s_call_params s) (s_hints s) (s_cb s) v.
+
+(* every eval() call parses its text anew: the nodes (and their lookup hints) are fresh each time.
+   The pre-parsed tree is therefore relabelled with line numbers unique to this call. *)
+Fixpoint shift_lines (fuel : nat) (off : Z) (a : ast) : ast :=
+  match fuel with
+  | O => a
+  | S f => let 'Node k cls text l c ch := a in
+           Node k cls text (mkloc (l_line l + off) (l_col l) (l_eline l + off) (l_ecol l)) c (map (shift_lines f off) ch)
+  end.
 
 Definition assoc {A} (l : list (string * A)) (k : string) : option A :=
   match find (fun e => String.eqb (fst e) k) l with Some (_, v) => Some v | None => None end.
@@ -162,6 +173,7 @@ Inductive prim : Type -> Type :=
 | PSetFuncs (name : string) (l : list closure) : prim unit
 | POut (text : string) : prim unit
 | PTick : prim (option string)                                      (* one more invocation of the harness callback; Some kind = it throws *)
+| PEvalTree (text : string) : prim (option ast)                     (* the tree the parser builds for this text, with fresh nodes *)
 | PSaveParams (ps : list dloc) : prim unit.
 
 Definition run_prim {A} (p : prim A) : M A :=
@@ -205,6 +217,12 @@ Definition run_prim {A} (p : prim A) : M A :=
   | PTick => fun s => let '(cnt, fault) := s_cb s in
                       let cnt' := S cnt in
                       (RVal (match fault with Some (n, kd) => if Nat.eqb n cnt' then Some kd else None | None => None end), set_cb s (cnt', fault))
+  | PEvalTree text =>
+      fun s => let '(tbl, cnt) := s_evals s in
+               (RVal (match assoc tbl text with
+                      | Some t => Some (shift_lines 4096 (Z.of_nat (S cnt) * 100000)%Z t)
+                      | None => None
+                      end), set_evals s (tbl, S cnt))
   | PSaveParams ps => fun s => (RVal tt, match s_call_params s with p :: r => set_call_params s ((app ps p) :: r) | [] => s end)
   end.
 
@@ -290,7 +308,7 @@ Definition add_object (name : string) (d : dloc) : prog unit :=
 
 (* ---------------------------------------------------------------- builtin names the model knows *)
 Definition builtin_names : list string :=
-  ["print"; "puts"; "to_string"; "throw"; "size"; "empty"; "push_back"; "front"; "back"; "pop_back"; "clone"; "what"; "cb"].
+  ["print"; "puts"; "to_string"; "throw"; "size"; "empty"; "push_back"; "front"; "back"; "pop_back"; "clone"; "what"; "cb"; "eval"].
 
 (* ---------------------------------------------------------------- Id lookup (Dispatch_Engine::get_object) *)
 Definition hint_key (n : ast) : string :=
